@@ -174,13 +174,13 @@ theorem eventOf_echo (c : Cfg) (r : Req) (f : Fate) (hc : c.configured r.spec.ke
   cases f <;> cases kind <;>
     simp only [eventOf, processOpenResponse, processCancelResponse, processOpenTimeout,
       processCancelTimeout, indexKey, hc, specEvent, specResponseEvent, specTimeoutEvent,
-      openOutcome, indexReply, if_true, reduceCtorEq, if_false, false_and, true_and]
+      openOutcome, if_true, reduceCtorEq, if_false, false_and, true_and]
   · -- response, open
     have hb' : echoBody = body := by simpa using hb
     subst hb'
-    cases reply <;> simp_all
+    rcases reply with _ | _ | i | (_ | _ | _) | a | a | k <;> simp_all [indexReply, findAssetIndex]
   · -- response, cancel
-    cases reply <;> simp_all
+    rcases reply with _ | _ | i | (_ | _ | _) | a | a | k <;> simp_all [indexReply, findAssetIndex]
 
 theorem specEvent_ident (q : ReqSpec) (f : Fate) : (specEvent q f).ident = (q.kind, q.key) := by
   cases f <;> rfl
